@@ -23,6 +23,7 @@ Record fcase := mkFcase {
   f_sigsent : Z;          (* when the harness sent the signal; 0 = none *)
   f_mark : Z;             (* when the injected misbehaviour happened, by the command's own clock; -1 = n/a *)
   f_total_wait : Z;       (* sum over the acts of their last waitUntil: the play cannot end well earlier *)
+  f_grace : Z;            (* when a spotlight's SIGHUP handler ran (its marker); -1 = no marker *)
   f_survivors : Z }.
 
 Definition F_none := 0%N.           Definition F_action_fails := 1%N.
@@ -37,7 +38,8 @@ Definition F_hang_act_sigint := 13%N.  Definition F_hang_clean_1 := 14%N.
 Definition F_hang_act_peer := 15%N.    Definition F_hang_act_sigterm := 16%N.
 Definition F_hang_clean_2 := 17%N.     Definition F_hang_act_spot := 18%N.
 Definition F_hang_act_foul := 19%N.
-Definition is_hang (f : N) : bool := (13 <=? f)%N.
+Definition F_graceful := 20%N.
+Definition is_hang (f : N) : bool := (13 <=? f)%N && (f <=? 19)%N.
 
 Definition rows_n (n : Z) (rows : list (Z * Z * Z * Z)) : list (Z * Z * Z * Z) :=
   filter (fun r => let '(m, _, _, _) := r in m =? n) rows.
@@ -91,7 +93,7 @@ Definition in_time (c : fcase) (t : Z) : bool := (0 <? t) && (t + 500000000 <? n
 (** Where the status is due, and what it must be (true = zero). *)
 Definition status_due (c : fcase) : option bool :=
   let f := f_fault c in
-  if (f =? F_none)%N || (f =? F_hup_leader)%N || (f =? F_hup_child)%N || (f =? F_hup_bg)%N then Some true
+  if (f =? F_none)%N || (f =? F_hup_leader)%N || (f =? F_hup_child)%N || (f =? F_hup_bg)%N || (f =? F_graceful)%N then Some true
   else if (f =? F_action_fails)%N || (f =? F_clean_fails_1)%N || (f =? F_clean_fails_2)%N then Some false
   else if (f =? F_spot_fails)%N || (f =? F_foul_S)%N || (f =? F_expr)%N || (f =? F_expr_S)%N then
     (if in_time c (f_mark c) then Some false else None)
@@ -107,10 +109,13 @@ Definition status_bad (c : fcase) : bool :=
 
 (** Bits: 1 did not exit within the bound; 2 a process of the play survived;
     4 initial cleanup not exactly once per actor; 8 final cleanup missing /
-    repeated / run although the initial one failed; 16 order; 32 status. *)
+    repeated / run although the initial one failed; 16 order; 32 status;
+    64 a spotlight that handles SIGHUP was not given the chance (the kill
+    protocol is SIGHUP first, SIGKILL only after the 2 s grace). *)
 Definition c07_oracle_mask (c : fcase) : N :=
   let killed_before_start := (f_exit c <? 0) && f_exited c && nothing_ran c && negb (f_sig c =? 0)%N in
   N.add (bit (negb (f_exited c)) 1%N)
+ (N.add (bit ((f_fault c =? F_graceful)%N && f_exited c && (f_exit c =? 0) && (f_grace c <? 0)) 64%N)
  (N.add (bit (0 <? f_survivors c) 2%N)
   (if killed_before_start then 0%N else
   (N.add (bit (negb (first_phase_ok c)) 4%N)
@@ -118,7 +123,7 @@ Definition c07_oracle_mask (c : fcase) : N :=
                (if first_phase_succeeded c then negb (second_phase_complete c)
                 else negb (second_phase_absent c) || negb (match f_actions c with [] => true | _ => false end))) 8%N)
   (N.add (bit (negb (order_ok c)) 16%N)
-         (bit (status_bad c && f_exited c) 32%N)))))).
+         (bit (status_bad c && f_exited c) 32%N))))))).
 
 Definition c07_oracle_bad (c : fcase) : bool := negb (c07_oracle_mask c =? 0)%N.
 
@@ -134,7 +139,7 @@ Definition tail_cancelled (first : comp) : list label :=
   ++ [LPick CS; LPick CA; LPick CK].
 
 Definition labels_of (f : N) : bool * list label :=
-  if (f =? F_none)%N || (f =? F_hup_leader)%N || (f =? F_hup_child)%N || (f =? F_hup_bg)%N then
+  if (f =? F_none)%N || (f =? F_hup_leader)%N || (f =? F_hup_child)%N || (f =? F_hup_bg)%N || (f =? F_graceful)%N then
     (false, [LCleanup1 true; LScene; LScene; LScene; LFinP true ENil; LPick CP] ++ tail_ok ++ [LDefer false; LCleanup2 true])
   else if (f =? F_action_fails)%N then
     (false, [LCleanup1 true; LScene; LFinP false EOther; LPick CP] ++ tail_ok ++ [LDefer false; LCleanup2 true])
